@@ -44,11 +44,41 @@ func gen(g *common.Gen) {
 		// small alphabets: equal names, prefixes and siblings are frequent
 		u := common.NameUniverse{Alphabet: []string{"a", "b", "c"}[:r.Range(2, 3)], MaxDepth: r.Range(2, 4)}
 		capK := common.Pick(r, []int{0, 1, r.Range(2, 8), r.Range(2, 8)})
+		big := r.Chance(1, 10)
+		if big {
+			capK = r.Range(80, 300)
+		}
 		g.Op("new %d", capK)
 		g.Stat("cap" + strconv.Itoa(min(capK, 4)))
 		nops := r.Range(20, 80)
 		seq := 0
 		var inserted []enc.Name
+		if big {
+			// a big store whose capacity is then lowered by far more than a handful of entries: the next insertion
+			// under a new name has to bring it all the way down
+			fill := r.Range(70, min(capK+20, 280))
+			for j := 0; j < fill; j++ {
+				n := enc.Name{enc.NewStringComponent(enc.TypeGenericNameComponent, "f"), enc.NewStringComponent(enc.TypeGenericNameComponent, strconv.Itoa(j))}
+				seq++
+				g.Op("ins %s - %s", common.NameText(n), common.Hex(DataWire(n, -1, []byte{byte(seq >> 8), byte(seq)})))
+				if j%16 == 0 {
+					inserted = append(inserted, n)
+				}
+			}
+			k := r.Range(0, 20)
+			if r.Chance(1, 2) {
+				g.Op("cap %d", k)
+			} else {
+				g.Op("mcap %d %d", k, common.Pick(r, []int{0, 1}))
+			}
+			n := enc.Name{enc.NewStringComponent(enc.TypeGenericNameComponent, "g")}
+			seq++
+			g.Op("ins %s - %s", common.NameText(n), common.Hex(DataWire(n, -1, []byte{byte(seq >> 8), byte(seq)})))
+			inserted = append(inserted, n)
+			g.Op("probe")
+			g.Stat("big-drop")
+			nops = r.Range(10, 30)
+		}
 		draw := func() enc.Name {
 			if len(inserted) > 0 && r.Chance(1, 2) {
 				n := common.Pick(r, inserted)
